@@ -44,6 +44,11 @@ pub enum Form {
     GluedInlineComment,
     GluedLineComment,
     GluedBlockComment,
+    /// two `--` comments on two lines: in front of an assignment they are collected into
+    /// documentation of more than one line
+    TwoLineComments,
+    /// a nested block comment that runs over three lines
+    MultiLineNestedBlock,
 }
 
 /// bodies that are only legal in one comment style: `--` means nothing inside `/* */`
@@ -53,14 +58,14 @@ const LINE_ONLY_BODIES: [&str; 2] = ["slash-star /* inside", "star-slash */ insi
 
 fn body_for(form: Form, k: usize) -> &'static str {
     match form {
-        Form::BlockComment | Form::NestedBlockComment if k % 3 == 0 => BLOCK_ONLY_BODIES[(k / 3) % BLOCK_ONLY_BODIES.len()],
-        Form::LineComment | Form::InlineComment | Form::GluedLineComment if k % 4 == 0 => LINE_ONLY_BODIES[(k / 4) % LINE_ONLY_BODIES.len()],
+        Form::BlockComment | Form::NestedBlockComment | Form::MultiLineNestedBlock if k % 3 == 0 => BLOCK_ONLY_BODIES[(k / 3) % BLOCK_ONLY_BODIES.len()],
+        Form::LineComment | Form::InlineComment | Form::GluedLineComment | Form::TwoLineComments if k % 4 == 0 => LINE_ONLY_BODIES[(k / 4) % LINE_ONLY_BODIES.len()],
         _ => COMMENT_BODIES[k % COMMENT_BODIES.len()],
     }
 }
 
 impl Form {
-    pub const ALL: [Form; 14] = [
+    pub const ALL: [Form; 16] = [
         Form::Space,
         Form::Tab,
         Form::TwoSpaces,
@@ -75,6 +80,8 @@ impl Form {
         Form::GluedInlineComment,
         Form::GluedLineComment,
         Form::GluedBlockComment,
+        Form::TwoLineComments,
+        Form::MultiLineNestedBlock,
     ];
     fn class(self) -> &'static str {
         match self {
@@ -100,6 +107,8 @@ impl Form {
             Form::GluedInlineComment => format!("--{}--", body.trim_end()),
             Form::GluedLineComment => format!("--{body}\n"),
             Form::GluedBlockComment => format!("/*{body}*/"),
+            Form::TwoLineComments => format!(" -- {body}\n -- second line\n"),
+            Form::MultiLineNestedBlock => format!(" /* outer\n /* {body} */\n outer */ "),
         }
     }
 }
@@ -571,7 +580,7 @@ pub fn run(tier: Tier, seed: u64, replay: Option<String>) -> i32 {
     ctx.max_replays = 60;
     ctx.rule = "generator outputs (token lists known): every token boundary individually x layout forms (quick: tab, LF, `-- c` to end of line, `/* c */`, plus the \
                 remaining forms on every 3rd boundary; thorough: all of space, tab, two spaces, LF, CRLF, nothing where the tokens stay separable, `-- c` EOL, \
-                `-- c --`, `/* c */`, nested `/* /* c */ */`, the empty comment `----`), comment bodies with quotes, braces, keywords, END, non-ASCII, * and /, `--` inside block comments, `/*` and `*/` inside line comments; plus random subsets of \
+                `-- c --`, `/* c */`, nested `/* /* c */ */` on one line and over three, two `--` comments on two lines, the empty comment `----`), comment bodies with quotes, braces, keywords, END, non-ASCII, * and /, `--` inside block comments, `/*` and `*/` inside line comments; plus random subsets of \
                 boundaries re-laid-out at once; oracle: same Ok/Err status, token-identical bindings with #[doc] removed, equal warning multisets; one evaluation = one \
                 re-layout compared with the base layout; non-trivial = the boundary lies inside an assignment and the form differs from the base layout; distinct by variant text"
         .into();
@@ -646,7 +655,7 @@ pub fn run(tier: Tier, seed: u64, replay: Option<String>) -> i32 {
                 let inside = toks[i - 1].module == toks[i].module && toks[i - 1].item == toks[i].item && toks[i].item != HEADER;
                 let base_sep = default_sep(&toks, i, false);
                 for (fi, form) in Form::ALL.iter().enumerate() {
-                    let primary = matches!(form, Form::Tab | Form::Lf | Form::LineComment | Form::BlockComment | Form::GluedInlineComment);
+                    let primary = matches!(form, Form::Tab | Form::Lf | Form::LineComment | Form::BlockComment | Form::GluedInlineComment | Form::TwoLineComments);
                     if !thorough && !primary && (i + fi) % 3 != 0 {
                         continue;
                     }
